@@ -35,8 +35,9 @@ def job(j):
     st = {"w": None, "n": 0, "viol": [], "distinct": set(), "samples": []}
 
     def pair_cell(w, rec):
-        da, db = "$a: Int!", "$b: [E!]"
-        q = "query (%s, %s) { e2(a: $a) e44(a: $b) }" % (da, db)
+        nn = rec.get("atype", ["NN", "Int"])[0] == "NN"
+        da, db = ("$a: Int!" if nn else "$a: Int"), "$b: [E!]"
+        q = "query (%s, %s) { %s(a: $a) e44(a: $b) }" % (da, db, "e2" if nn else "e1")
         spans = {"a": (8, 8 + len(da)), "b": (8 + len(da) + 2, 8 + len(da) + 2 + len(db))}
         variables = {name: value_py(v, 0) for name, v in rec["given"]}
         resp = w.run(q, variables)
@@ -49,7 +50,7 @@ def job(j):
         else:
             ea, eb = expected_args(rec["argsA"], 0), expected_args(rec["argsB"], 0)
             got = {c[0]: c[2] for c in w.calls}
-            if not isinstance(resp, dict) or resp.get("errors") or not render.strict_eq(got.get("e2"), ea) or not render.strict_eq(got.get("e44"), eb):
+            if not isinstance(resp, dict) or resp.get("errors") or not render.strict_eq(got.get("e2" if nn else "e1"), ea) or not render.strict_eq(got.get("e44"), eb):
                 mm.append("two variables: resolvers saw %r, expected e2 %r e44 %r (%r)" % (w.calls, ea, eb, resp))
         st["distinct"].add(("pair", repr(rec["given"])))
         if mm and len(st["viol"]) < 400:
@@ -102,7 +103,7 @@ def main(argv):
                 "fields} + two depth-3 nestings) x default? x (absent | candidate JSON value one mutation away from well-typed at every position) x 2 representatives; "
                 "distinct_nontrivial = distinct (type, default?, present?, value) cells")
     rep.assumptions = ["stand-in parser", "leaf values are token representatives (harness/tokens.py); scalar leaf laws themselves are C10's", "an undeclared variable zz is always sent along"]
-    results = genrun.run_jobs("checks.c04", "job", [{"cfg": "MC_vars_%d.cfg" % p} for p in range(PARTS)] + [{"cfg": "MC_pairs.cfg"}])
+    results = genrun.run_jobs("checks.c04", "job", [{"cfg": "MC_vars_%d.cfg" % p} for p in range(PARTS)] + [{"cfg": "MC_pairs.cfg"}, {"cfg": "MC_pairs2.cfg"}])
     bad = genrun.merge(rep, results)
     rc = rep.finish()
     if bad:
